@@ -10,19 +10,29 @@ LEAVES = {
     "array": {"type": "array", "items": {"type": "string"}}, "object": {"type": "object", "properties": {"k": {"type": "string"}}},
     "map": {"type": "object", "additionalProperties": {"type": "number"}},
     "null": {"type": "null"},
+    # constraints that the zero value violates: a null that is turned into a zero instead of nil shows
+    "integer-b": {"type": "integer", "minimum": 1, "maximum": 1000}, "number-b": {"type": "number", "minimum": 0.5}, "string-b": {"type": "string", "minLength": 1},
+    "integer-s": {"type": "integer", "minimum": -5, "maximum": 100},
 }
 
 
 def systematic():
     out = []
     for name, leaf in LEAVES.items():
-        for pos in ("required", "optional", "nullable", "item", "item2", "definition", "nested", "map-value", "addl-value", "item-ref", "map-ref", "map-ref-nested"):
+        for pos in ("required", "optional", "nullable", "nullable-required", "nullable-definition", "nullable-nested-required", "item", "item2", "definition", "nested", "map-value", "addl-value", "item-ref", "map-ref", "map-ref-nested"):
             if name == "null" and pos in ("nullable", "definition", "map-value", "addl-value", "item-ref", "map-ref", "map-ref-nested", "nested"):
                 continue
+            if pos.startswith("nullable") and name in ("object", "map", "null"):
+                continue
             if pos == "nullable":
-                if name in ("object", "map"):
-                    continue
                 root = {"type": "object", "properties": {"v": dict(leaf, type=[leaf["type"], "null"])}}
+            elif pos == "nullable-required":
+                root = {"type": "object", "properties": {"v": dict(leaf, type=["null", leaf["type"]])}, "required": ["v"]}
+            elif pos == "nullable-definition":
+                root = {"type": "object", "properties": {"v": {"$ref": "#/$defs/L"}}, "$defs": {"L": dict(leaf, type=[leaf["type"], "null"])}, "required": ["v"]}
+            elif pos == "nullable-nested-required":
+                root = {"type": "object", "properties": {"o": {"type": "object", "properties": {"v": dict(leaf, type=[leaf["type"], "null"]), "w": {"type": "string"}},
+                                                               "required": ["v"]}}}
             elif pos == "required":
                 root = {"type": "object", "properties": {"v": leaf}, "required": ["v"]}
             elif pos == "optional":
@@ -64,6 +74,9 @@ def run(ctx):
     n = 30 if ctx.tier == "quick" else 400
     sysm = systematic()
     cases = build_cases(ctx, len(sysm) + n, None, CLASSES | {"null-not-allowed"}, "c03x", extra_schemas=sysm, docs_per=2 if ctx.tier == "quick" else 3)
+    # the integer positions again under --min-sized-ints (another Go type for the same schema)
+    sysi = [r for r in sysm if "integer" in json.dumps(r)]
+    cases += build_cases(ctx, len(sysi), None, CLASSES | {"null-not-allowed"}, "c03m", extra_schemas=sysi, docs_per=2, minsized=True, fam="min-sized")
     run_cases(ctx, cases, "c03")
     evaluate(ctx, cases, CLASSES, {"type": "invalid", "null-allowed": "valid", "valid": "valid"}, "JSON types")
     from vlib.valuecheck import replay_findings
